@@ -326,16 +326,16 @@ VAR_SETUP = [
     'local.i = 123456789', 'local.s = "abc def"', 'local.a[1] = 5', 'local.a[2] = "x"', 'local.a["k"] = 7',
     'local.b = local.a', 'local.c = 1::2::"three"', 'local.f = 1.5', 'local.n = NIL', 'local.v = (1 2 3)',
     'local.me = local', 'group.g = 77', 'local.e = ""', 'local.big = 4294967297', 'local.neg = -5',
-    'local.aa[1][2] = 9', 'local.ch = "abc"[1]', 'local.a[-1] = 3', 'local.a[0] = 4', 'local.a[-70000] = 8',
+    'local.aa[1][2] = 9', 'local.ch = "abc"[1]', 'local.a[(0 - 1)] = 3', 'local.a[0] = 4', 'local.a[(0 - 70000)] = 8',
 ]
 VAR_PRINTS = [
     'println "i" local.i', 'println "s" local.s', 'println "a" local.a[1] local.a[2] local.a["k"]',
     'println "b" local.b[1] local.b[2]', 'println "c" local.c[1] local.c[3]', 'println "f" local.f',
     'println "n" local.n', 'println "v" local.v', 'println "me" (local.me == local)', 'println "g" group.g',
     'println "e" local.e', 'println "big" local.big', 'println "neg" local.neg', 'println "aa" local.aa[1][2]',
-    'println "ch" local.ch', 'println "sz" local.a.size', 'println "an" local.a[-1] local.a[0] local.a[-70000]',
+    'println "ch" local.ch', 'println "sz" local.a.size', 'println "an" local.a[(0 - 1)] local.a[0] local.a[(0 - 70000)]',
 ]
-VAR_MUTS = ['local.a[-1] = local.a[-1] + 1', 'local.a[1] = 6', 'local.b[2] = "y"', 'local.i = local.i + 1', 'local.s = local.s + "!"', 'group.g = group.g + 1',
+VAR_MUTS = ['local.a[(0 - 1)] = local.a[(0 - 1)] + 1', 'local.a[1] = 6', 'local.b[2] = "y"', 'local.i = local.i + 1', 'local.s = local.s + "!"', 'group.g = group.g + 1',
             'local.a[3] = local.i', 'local.aa[1][2] = local.aa[1][2] * 2']
 
 
@@ -346,7 +346,8 @@ def gen_vars_script(rng):
     out = []
     for i in range(nl):
         out.append("t%d:" % i)
-        setup = rng.sample(VAR_SETUP, rng.randint(3, len(VAR_SETUP)))
+        setup = list(VAR_SETUP) if rng.random() < 0.4 else rng.sample(VAR_SETUP, rng.randint(3, len(VAR_SETUP)))
+        rng.shuffle(setup)
         # keep dependencies: b needs a
         if 'local.b = local.a' in setup and 'local.a[1] = 5' not in setup:
             setup.remove('local.b = local.a')
@@ -356,7 +357,7 @@ def gen_vars_script(rng):
         for _ in range(rng.randint(1, 3)):
             out.append("wait %s" % secs(rng.choice([125, 250, 500])))
             out += rng.sample(VAR_MUTS, rng.randint(0, 3))
-            out += rng.sample(VAR_PRINTS, rng.randint(2, 8))
+            out += list(VAR_PRINTS) if rng.random() < 0.4 else rng.sample(VAR_PRINTS, rng.randint(2, 8))
         out.append("end")
     return "\n".join(out) + "\n"
 
